@@ -11,7 +11,7 @@ def region(r, low=False):
 
 def placement_suite(r, prefix, tier="quick"):
     """one history per kind of target placement: every arena mode that does not need the window reserved, plus the deterministic-trampoline ones"""
-    modes = ["page0"] * 3 + ["neigh"] * 2 + ["straddle"] * 2 + ["low"] * 2 + ["alias"] * 3 + ["hole_lo", "hole_hi", "hole", "edge"] + [f"align{k}" for k in (1, 2, 3, 5, 7, 8, 9, 13, 15)]
+    modes = ["page0"] * 3 + ["packed"] * 3 + ["neigh"] * 2 + ["straddle"] * 2 + ["low"] * 2 + ["alias"] * 3 + ["hole_lo", "hole_hi", "hole", "edge"] + [f"align{k}" for k in (1, 2, 3, 5, 7, 8, 9, 13, 15)]
     if tier == "thorough": modes = modes * 8
     return [gen(r, f"{prefix}{i}", mode=m) for i, m in enumerate(modes)]
 
@@ -23,6 +23,17 @@ def gen(r, hid, mode=None, max_lifetimes=2):
         decl = [f"A={B:x}/2", f"F={t:x}/1111", f"F={t + 32:x}/aaa1", "S"]
         names = [f"t0@{t:x}", f"n0@{t + 32:x}"]
         ops = [f"I:t0:{r.choice(['raw', 'clo', 'fake', 'unc'])}:{r.randint(0, 3)}", "C:t0", f"I:t0:raw:{r.randint(0, 3)}"]
+        lts = [ops]
+        return f"{hid} {','.join(decl + names + ['fk0', 'fk1', 'fk2', 'fk3'])} " + "|".join(",".join(o) for o in lts), lts
+    if mode in ("packed", "packedbool"):
+        # tightly packed 6-byte functions, 8 bytes apart (hand-written assembly, -Os code): each entry patch must stay inside its own 8 bytes,
+        # also when several of them are faked through one injector (the later trampolines are allocated with the first ones in place)
+        B = region(r); off = r.choice([0, 64, 1000 & ~7, 4096 - 24]); t = B + off
+        decl = [f"A={B:x}/2", f"F={t:x}/1", f"F={t + 8:x}/0", f"F={t + 16:x}/1", "S"]
+        names = [f"t0@{t:x}", f"t1@{t + 8:x}", f"t2@{t + 16:x}"]
+        order = r.sample(["t0", "t1", "t2"], 3)
+        if mode == "packedbool": ops = [x for n in order[:2] for x in (f"I:{n}:bool:{r.randint(0, 1)}", "C:t0", "C:t1", "C:t2")] + [f"I:{order[0]}:bool:{r.randint(0, 1)}", "C:t0", "C:t1"]
+        else: ops = [x for n in order[:2] for x in (f"I:{n}:{r.choice(['raw', 'clo'])}:{r.randint(0, 3)}", "C:t0", "C:t1", "C:t2")]
         lts = [ops]
         return f"{hid} {','.join(decl + names + ['fk0', 'fk1', 'fk2', 'fk3'])} " + "|".join(",".join(o) for o in lts), lts
     if mode == "alias":
